@@ -290,6 +290,53 @@ def one(M, rec, rng, g, desc, kind, symvals):
         rec.sample({"desc": desc, "renaming": mapping, "node_names": nn})
 
 
+def moved_link(M, rec, rng, g):
+    """An off-ramp moved to the next junction on the live network (`net.G.remove_edge` + `add_link` of the same
+    link object between other nodes, after a step / after the lookups were read): the re-wired network is the
+    network that is built like that directly."""
+    NE, CE = drive.engines(M)
+    ids = ["n0", "n1", "n2", "n3", "n4"]
+
+    def lk(i, up, dn, N):
+        return {"id": f"L{i}", "name": f"L{i}", "up": up, "down": dn, "N": N, "lam": rng.choice((1, 2, 3)), "L": round(rng.uniform(0.5, 1.5), 2),
+                "rho_max": 180.0, "rho_crit": round(rng.uniform(28, 38), 1), "v_free": round(rng.uniform(95, 120), 1),
+                "a": round(rng.uniform(1.4, 2.6), 2), "beta": round(rng.uniform(0.1, 2.0), 2), "vsl": None, "alpha": None}
+
+    def desc_with(ramp_from):
+        return {"nodes": list(ids),
+                "links": [lk0, lk1, lk2, dict(ramp, up=ramp_from)],
+                "origins": [{"id": "O0", "name": "O0", "node": "n0", "kind": okind, "C": 2500.0 if okind in ("ramp", "simple") else None,
+                             "eq": {"ramp": "out", "simple": "limited"}.get(okind)}],
+                "dests": [{"id": "D0", "name": "D0", "node": "n3", "kind": "free"}, {"id": "D1", "name": "D1", "node": "n4", "kind": "cong"}]}
+
+    okind = rng.choice(("ideal", "main", "ramp"))
+    lk0, lk1, lk2 = lk(0, "n0", "n1", rng.choice((1, 2))), lk(1, "n1", "n2", rng.choice((1, 2, 3))), lk(2, "n2", "n3", rng.choice((1, 2)))
+    ramp = lk(3, "n1", "n4", rng.choice((1, 2)))
+    before, after = desc_with("n1"), desc_with("n2")
+    pars = g.pars()
+    kw = drive.step_pars(pars)
+    _, v0 = g.values(before, "interior", allow_inf=False)
+    _, vals = g.values(after, "interior", allow_inf=False)
+    try:
+        b = D.build(M, before)
+        if rng.random() < 0.6:
+            b.net.step(init_conditions=drive.np_init(b, v0, "vec1"), engine=NE(), **kw)
+        else:
+            _ = b.net.nodes_by_link, b.net.links_by_name, b.net.nodes_by_name
+        rng.choice((b.net.G, b.net.graph)).remove_edge(b.nodes["n1"], b.nodes["n4"])
+        b.net.add_link(b.nodes["n2"], b.links["L3"], b.nodes["n4"])
+        b.desc = after
+        b.net.step(init_conditions=drive.np_init(b, vals, "vec1"), engine=NE(), **kw)
+        moved = drive.read_next(b)
+        f = D.build(M, after, D.random_ops(after, rng))
+        f.net.step(init_conditions=drive.np_init(f, vals, "vec1"), engine=NE(), **kw)
+        rec.count("relation_moved_link")
+        same(rec, "a link moved to other nodes on the live network vs the network built like that directly", "numpy", after, drive.read_next(f), moved,
+             {"desc": after, "vals": vals, "pars": pars})
+    except Exception as e:
+        rec.violation(f"{PROP}:moved link:numpy: the re-wired network cannot be stepped ({type(e).__name__})", {"exception": repr(e)[:300]})
+
+
 def run(M, rec, tier, seed, k, n):
     np.seterr(all="ignore")
     rng = random.Random(seed * 1000 + k + 1400)
@@ -303,6 +350,8 @@ def run(M, rec, tier, seed, k, n):
         kind = ("numpy", "numpy", "numpy", "SX", "MX")[it % 5]
         rec.seen("engines", kind)
         one(M, rec, rng, g, desc, kind, symvals)
+        if it % 4 == 1:
+            moved_link(M, rec, rng, g)
 
 
 def finish(M, rec, write=True):
